@@ -24,6 +24,7 @@ type s3op struct {
 	SB   string   `json:"src_bucket,omitempty"`
 	SK   string   `json:"src_key,omitempty"`
 	Body string   `json:"body,omitempty"`
+	Tag  string   `json:"tag,omitempty"` // uploads of identical bytes differ in the metadata they carry
 	Keys []string `json:"keys,omitempty"`
 }
 
@@ -62,9 +63,9 @@ type s3obs struct {
 // Every put carries two metadata entries derived from the body, so that the
 // metadata a read must return follows from the model's body (a copy carries the
 // source's metadata along).
-func c02Meta(body []byte) (ctype, w string) {
+func c02Meta(body []byte, tag string) (ctype, w string) {
 	h := drv.MD5Hex(body)
-	return "text/x-" + h[:8], "w-" + h[8:20]
+	return "text/x-" + h[:8] + tag, "w-" + h[8:20] + tag
 }
 
 func deleteXML(keys []string, quiet bool) []byte {
@@ -94,7 +95,7 @@ func execHTTP(s *drv.Server, o s3op) s3obs {
 	case "list-buckets":
 		q = &drv.Req{Method: "GET", Path: "/"}
 	case "put":
-		ct, mw := c02Meta([]byte(o.Body))
+		ct, mw := c02Meta([]byte(o.Body), o.Tag)
 		q = &drv.Req{Method: "PUT", Path: drv.ObjPath(o.B, o.K), Body: []byte(o.Body), Header: drv.H("Content-Type", ct, "x-amz-meta-w", mw)}
 	case "get":
 		q = &drv.Req{Method: "GET", Path: drv.ObjPath(o.B, o.K)}
@@ -188,7 +189,7 @@ func execGo(s *drv.Server, o s3op) (ob s3obs) {
 		ob.Names = sortedCopy(ob.Names)
 		return ob
 	case "put":
-		ct, mw := c02Meta([]byte(o.Body))
+		ct, mw := c02Meta([]byte(o.Body), o.Tag)
 		_, err := b.PutObject(o.B, o.K, map[string]string{"Content-Type": ct, "X-Amz-Meta-W": mw}, strings.NewReader(o.Body), int64(len(o.Body)))
 		ob = errToObs(err, 200)
 		if err == nil {
@@ -268,7 +269,7 @@ func modelStep(m *model.S3Model, o s3op, goAPI bool) model.Outcome {
 	case "list-buckets":
 		return m.ListBuckets()
 	case "put":
-		return m.Put(o.B, o.K, []byte(o.Body))
+		return m.PutTagged(o.B, o.K, []byte(o.Body), o.Tag)
 	case "get", "head":
 		return m.Get(o.B, o.K)
 	case "delete":
@@ -318,7 +319,7 @@ func compareOutcome(o s3op, want model.Outcome, got s3obs, goAPI bool) (string, 
 		if o.Kind == "head" && len(got.Body) != 0 {
 			return "head-with-body", "HEAD returned a body"
 		}
-		if ct, mw := c02Meta(want.Obj.Body); got.CType != ct || got.MetaW != mw {
+		if ct, mw := c02Meta(want.Obj.Body, want.Obj.Tag); got.CType != ct || got.MetaW != mw {
 			return "metadata-mismatch", fmt.Sprintf("Content-Type %q x-amz-meta-w %q, the most recent write of this object carried %q and %q", got.CType, got.MetaW, ct, mw)
 		}
 	case "copy", "put":
@@ -467,6 +468,7 @@ func opAlphabet(buckets, keys []string, single bool) []s3op {
 		ops = append(ops, s3op{Kind: "head-bucket", B: b})
 		for _, k := range keys {
 			ops = append(ops, s3op{Kind: "put", B: b, K: k, Body: "A:" + k}, s3op{Kind: "put", B: b, K: k, Body: "second-and-longer:" + k},
+				s3op{Kind: "put", B: b, K: k, Body: "A:" + k, Tag: "-again"},
 				s3op{Kind: "get", B: b, K: k}, s3op{Kind: "head", B: b, K: k}, s3op{Kind: "delete", B: b, K: k})
 			for _, b2 := range buckets {
 				for _, k2 := range keys {
@@ -483,7 +485,7 @@ func opAlphabet(buckets, keys []string, single bool) []s3op {
 func runC02(c *Ctx) {
 	r := c.R
 	exhLen := r.Pick(3, 4)
-	r.SetRule(fmt.Sprintf("bounded-exhaustive: every sequence of length %d over a reduced alphabet (1 bucket, keys k and d/x: create/head/delete bucket, put x2 bodies, get, head, delete, copy incl. self-copy, multi-delete, list-buckets), every put carrying body-derived Content-Type and x-amz-meta-w that reads must return, each step followed by an audit read of every key; random: sequences of 30-60 ops over 2 buckets x keys {k, d/x, d/y, d/e/z} incl. cross-bucket copy, a third never-created bucket and never-written ghost keys (below an object, the name of a directory above objects, an extension of a key) as targets of reads, deletes and copy sources; each on mem, bolt, fs-mm, fs-dir, single-mm, single-dir, with and without auto-bucket, via HTTP and via the Go Backend API; distinct = (configuration, op-kind sequence, outcome-class sequence) containing a mutation followed by a dependent read", exhLen))
+	r.SetRule(fmt.Sprintf("bounded-exhaustive: every sequence of length %d over a reduced alphabet (1 bucket, keys k and d/x: create/head/delete bucket, put x2 bodies and the first body again with other metadata, get, head, delete, copy incl. self-copy, multi-delete, list-buckets), every put carrying body-derived Content-Type and x-amz-meta-w that reads must return, each step followed by an audit read of every key; random: sequences of 30-60 ops over 2 buckets x keys {k, d/x, d/y, d/e/z} incl. cross-bucket copy, a third never-created bucket and never-written ghost keys (below an object, the name of a directory above objects, an extension of a key) as targets of reads, deletes and copy sources; each on mem, bolt, fs-mm, fs-dir, single-mm, single-dir, with and without auto-bucket, via HTTP and via the Go Backend API; distinct = (configuration, op-kind sequence, outcome-class sequence) containing a mutation followed by a dependent read", exhLen))
 	r.Exhaustive(true)
 	var cfgs []c02Config
 	for _, k := range drv.AllKinds {
@@ -569,6 +571,7 @@ func runC02(c *Ctx) {
 			keys := []string{"k", "d/x", "d/y", "d/e/z"}
 			ghosts := []string{"k/below", "d/x/below/deeper", "d", "d/e", "kk", "d/xx", "d/e/z/z"}
 			n := 30 + rng.Intn(31)
+			lastBody := map[string]string{}
 			var ops []s3op
 			if !single && !cfg.auto {
 				ops = append(ops, s3op{Kind: "create-bucket", B: "bkt-one"})
@@ -595,8 +598,14 @@ func runC02(c *Ctx) {
 				case x < 16:
 					ops = append(ops, s3op{Kind: "list-buckets"})
 				case x < 42:
-					body := gen.Body(rng, rng.Intn(40), gen.PatRandom, uint32(idx*1000+len(ops)))
-					ops = append(ops, s3op{Kind: "put", B: b, K: k, Body: string(body)})
+					body := string(gen.Body(rng, rng.Intn(40), gen.PatRandom, uint32(idx*1000+len(ops))))
+					tag := ""
+					if prev, ok := lastBody[b+"/"+k]; ok && rng.Intn(5) == 0 {
+						// the same bytes again, with other metadata
+						body, tag = prev, fmt.Sprintf("-r%d", len(ops))
+					}
+					lastBody[b+"/"+k] = body
+					ops = append(ops, s3op{Kind: "put", B: b, K: k, Body: body, Tag: tag})
 				case x < 55:
 					ops = append(ops, s3op{Kind: "get", B: b, K: rk})
 				case x < 62:
